@@ -52,6 +52,10 @@ def register(reg):
 
   register_executor_callees(reg)
 
+  c = reg.contract('openhtf/util/data.py', 'convert_to_base_types', props=())
+  c.param('obj', 'val').param('ignore_keys', 'val').param('tuple_type', 'val').param('json_safe', 'bool').returns('val').modifies()
+  c.trusted('rendering to base types does not modify the record (its result is the subject of C10)')
+
   # ---- trusted: wall clock.  time_millis() is non-negative and never decreases (ghost clock in the registry spec)
   c = reg.contract(UT, 'time_millis', props=())
   c.returns('int').modifies().ensures('positive', 'result > 0')
@@ -76,6 +80,8 @@ def register_executor_callees(reg):
             run_under_pdb='bool', stop_on_measurement_fail='bool')
   reg.shape('PlugManager', _plugs_by_type='dict', _plugs_by_name='dict', _plug_types='set')
   reg.shape('Checkpoint', name='str', action='enum:PhaseResult')
+  reg.invariant('PhaseOptions', '(self.timeout_s is None or (self.timeout_s >= 0 and self.timeout_s < 2**60)) and '
+                '(self.repeat_limit is None or self.repeat_limit >= 0)')
   records = 'self.test_state.test_record.phases'
   grows = ('len({r}) >= old(len({r})) and forall_int(lambda j: implies(0 <= j and j < old(len({r})), '
            '{r}[j] is old(content({r}))[j]))').format(r=records)
@@ -111,18 +117,6 @@ def register_executor_callees(reg):
              'PhaseRecord.outcome', 'PhaseRecord.result', 'PhaseRecord.marginal', 'PhaseRecord.end_time_millis',
              'PhaseRecord.start_time_millis', 'PhaseRecord.options', 'PhaseRecord.measurements', 'PhaseRecord.subtest_name')
   c.trusted('verified separately (C05 units); here only its contract is used')
-
-  c = reg.contract(PE, 'PhaseExecutor.evaluate_checkpoint', props=['C02'])
-  c.param('checkpoint', 'ref:Checkpoint').param('subtest_rec', 'opt:ref:SubtestRecord')
-  c.returns('ref:PhaseExecutionOutcome')
-  c.ensures('fail_subtest_only_in_subtest', 'implies(result.is_fail_subtest, subtest_rec is not None)')
-  c.modifies('list(self.test_state.test_record.checkpoints)')
-  c.trusted('verified separately (C02 units); here only its contract is used')
-
-  c = reg.contract(PE, 'PhaseExecutor.skip_checkpoint', props=['C02'])
-  c.param('checkpoint', 'ref:Checkpoint').param('subtest_rec', 'opt:ref:SubtestRecord')
-  c.modifies('list(self.test_state.test_record.checkpoints)')
-  c.trusted('verified separately (C02 units); here only its contract is used')
 
   c = reg.contract(PL, 'PlugManager.tear_down_plugs', props=['C08'])
   c.modifies('PlugManager._plugs_by_type', 'PlugManager._plugs_by_name', 'dict')
